@@ -757,6 +757,10 @@ fn run_and_judge(prog: &Program, strategy: Strategy, serial: bool, focus: &str) 
         matches!(o, WOp::OrphanDeleteAll | WOp::OrphanQuarantineAll | WOp::OrphanDeleteOne { .. })
     });
     for (kind, detail) in &hook_findings {
+        if kind == "harness panicked" {
+            findings.push(Finding::new(&[], "lin-inconclusive", "harness panic", detail.clone()));
+            continue;
+        }
         if kind == "worker panicked" {
             findings.push(Finding::new(
                 &[focus_static(focus)],
@@ -1381,6 +1385,7 @@ impl Explorer<'_> {
 fn main() {
     let args = Args::from_env();
     let _guard = fsx::ScratchGuard;
+    cassadilia_verif::report::install_panic_location_hook();
     let focus = args.str("focus", "C04");
     let seed = args.u64("seed", 1);
     let thorough = args.has("thorough");
